@@ -69,6 +69,7 @@ func sameSlice[T any](a, b []T) bool             { return len(a) == len(b) }
 func sameVal[T any](a, b T) bool                 { return true }
 func sameBase[T any](a, b []T) bool              { return true }
 func freshBase[T any](a []T) bool                { return true }
+func present(x any) bool                          { return x != nil }
 func uninterp[T any](name string, args ...any) T { var z T; return z }
 func outCount() int                              { return 0 }
 func outFirst() any                              { return nil }
@@ -311,7 +312,7 @@ func outLast() any                               { return nil }
 
 //@ func (*Executor).execArrayIndex
 //@ props C07 C14
-//@ loop 1 invariant [C09 C14] last-bound: exec.innermostArraySize == size
+//@ loop 1 invariant [C09 C14 C07] last-bound: exec.innermostArraySize == size
 //@ loop 1 invariant [C07 C20] no-pending: pendingErr() == nil && !pendingFailed() && resErr == nil && res != statusFailed
 //@ loop 1 invariant status: res == statusOK || res == statusNotFound
 //@ loop 1 invariant [C06] exists-mode-undecided: found == nil ==> res == statusNotFound
@@ -526,7 +527,7 @@ func isUnknownSpec(a predOutcome) predOutcome {
 //@ requires node != nil
 //@ requires wf-pred: ast.IsBoolNode(node) && node.Next() == nil
 //@ atcall executeBoolItem assert [C10 C09] current-bound: exec.current == value && arg_node == node && arg_value == value && !arg_canHaveNext
-//@ ensures [C09 C10] restored: exec.current == old(exec.current)
+//@ ensures [C09 C10 C11] restored: exec.current == old(exec.current)
 //@ ensures [C10] result: ncalls(exec.executeBoolItem) == 1 && r0 == callret[predOutcome](exec.executeBoolItem, 0) && r1 == callret[error](exec.executeBoolItem, 1)
 
 //@ func (*Executor).executeBoolItem
@@ -929,7 +930,7 @@ func isUnknownSpec(a predOutcome) predOutcome {
 //@ func (*Executor).executeNumberMethod
 //@ alsoprops E3 C16
 //@ alsoprops E2 C16
-//@ props C16 C05
+//@ props C16 C05 C01
 //@ requires node != nil
 //@ ensures [C16] finite-number: ncalls(exec.executeNextItem) == 1 && !is[*ast.BinaryNode](node) ==> is[float64](callarg[any](exec.executeNextItem, "value")) && !isNaN(as[float64](callarg[any](exec.executeNextItem, "value"))) && !isInf(as[float64](callarg[any](exec.executeNextItem, "value")))
 //@ ensures [C16] float-identity: is[float64](value) && !is[*ast.BinaryNode](node) && ncalls(exec.executeNextItem) == 1 ==> callarg[any](exec.executeNextItem, "value") == value
